@@ -60,6 +60,7 @@ static const bool INT64_WEIGHTS = false, HAS_BOOL = true;
 #elif defined(VERIF_VARIANT_sdbm)
 using base_dom_t = crab::domains::split_dbm_domain<z_number, bvarname_t, dbm_graph_t>;
 static const bool INT64_WEIGHTS = true, HAS_BOOL = false;
+#define VERIF_RELATIONAL_BASE 1
 #elif defined(VERIF_VARIANT_constant)
 using base_dom_t = crab::domains::constant_domain<z_number, bvarname_t>;
 static const bool INT64_WEIGHTS = false, HAS_BOOL = false;
@@ -68,6 +69,11 @@ using base_dom_t = crab::domains::sign_constant_domain<z_number, bvarname_t>;
 static const bool INT64_WEIGHTS = false, HAS_BOOL = false;
 #else
 #error "unknown VERIF_VARIANT for h_rgn"
+#endif
+#ifdef VERIF_RELATIONAL_BASE
+static const bool RELATIONAL = true;
+#else
+static const bool RELATIONAL = false;
 #endif
 using dom_t = crab::domains::region_domain<RegionParams<base_dom_t>>;
 
@@ -233,13 +239,16 @@ struct RgnObs : public Observer {
       query_checks++;
       int n3 = q.null3[r.v];
       bool is_null = v.k == RefVal::Null;
+      // with a relational base domain the stale address of a re-made reference stays related to
+      // the addresses of other references (r := gep(q); q := make_ref(..); assume(q > null))
+      bool stale = v.stale || (RELATIONAL && cur->any_stale());
       if (n3 != 2)
         definite_null_answers++;
       if ((n3 == 1 && !is_null) || (n3 == 0 && is_null))
         need_where();
-      VCHECK(ctx, "C15", !(n3 == 1 && !is_null), v.stale ? stale_tag() : v.from_miscounted_region ? miscount_tag() : "rgn_is_null_wrong_true",
+      VCHECK(ctx, "C15", !(n3 == 1 && !is_null), stale ? stale_tag() : v.from_miscounted_region ? miscount_tag() : "rgn_is_null_wrong_true",
              where << ": is_null_ref(" << to_str(r.v) << ") = true but the reference is " << v.str() << "; invariant " << to_str(d) << " heap " << h.str());
-      VCHECK(ctx, "C15", !(n3 == 0 && is_null), v.stale ? stale_tag() : v.from_miscounted_region ? miscount_tag() : "rgn_is_null_wrong_false",
+      VCHECK(ctx, "C15", !(n3 == 0 && is_null), stale ? stale_tag() : v.from_miscounted_region ? miscount_tag() : "rgn_is_null_wrong_false",
              where << ": is_null_ref(" << to_str(r.v) << ") = false but the reference is null; invariant " << to_str(d) << " heap " << h.str());
       if (v.k != RefVal::Obj)
         continue;
